@@ -18,7 +18,13 @@ import (
 	"symgo/smt"
 )
 
-const tokenADD = token.ADD
+const (
+	tokenADD = token.ADD
+	tokenSUB = token.SUB
+	tokenMUL = token.MUL
+	tokenAND = token.AND
+	tokenNEQ = token.NEQ
+)
 
 // Program is a loaded SSA program.
 type Program struct {
